@@ -428,3 +428,12 @@ func AllFuncs(p *load.Program) []*ssa.Function {
 	sort.Slice(out, func(i, j int) bool { return QName(out[i]) < QName(out[j]) })
 	return out
 }
+
+// Global returns the package-level variable pkgSuffix.name.
+func Global(p *load.Program, pkgSuffix, name string) *ssa.Global {
+	sp := p.SSAPkg(pkgSuffix)
+	if sp == nil {
+		return nil
+	}
+	return sp.Var(name)
+}
